@@ -123,8 +123,18 @@ abbrev Box := M3 Rat
 def zeroV : Vec := ⟨0, 0, 0⟩
 def ofInts (i j k : Int) : Vec := ⟨(i : Rat), (j : Rat), (k : Rat)⟩
 
+/-- Order of the two tests in `_call_non_index_function` that pick the box for `periodic=True`. -/
+inductive BoxPrecedence where
+  /-- `if box is None: (atoms.box | ValueError)` — the explicit `box=` argument wins (documented) -/
+  | explicitFirst
+  /-- `if atoms carry a box: atoms.box  elif box is None: ValueError` — the atoms' own box wins -/
+  | ownFirst
+  deriving DecidableEq, Repr
+
 /-- Constants / loop ranges read from the source (see `Gen/C15.lean`). -/
 structure Consts where
+  /-- branch order of the box selection in `_call_non_index_function` -/
+  boxPrecedence : BoxPrecedence
   /-- threshold of `fractions[fractions > 0.5] -= 1` -/
   half : Rat
   /-- `true` for `>`, `false` for `>=` -/
@@ -385,20 +395,41 @@ def gather (a : Arr) (idx : List Int) : Option Arr :=
   | .l as => (idx.mapM (getIdx as)).map Arr.l
   | .s ms => (ms.mapM (fun as => idx.mapM (getIdx as))).map Arr.s
 
+def BoxArg.isNone : BoxArg → Bool
+  | .none => true
+  | _ => false
+
+/-- The box `_call_non_index_function` hands to the coordinate function.
+`own = none`: `atoms` is a plain `ndarray`; `own = some b`: an `AtomArray`/`AtomArrayStack` whose `box`
+attribute is `b` (`BoxArg.none` for `None`).  `periodic=False` ignores every box. -/
+def selectBox (p : BoxPrecedence) (periodic : Bool) (own : Option BoxArg) (explicit : BoxArg) : Except Err BoxArg :=
+  if !periodic then .ok .none else
+  match p with
+  | .explicitFirst =>
+    if explicit.isNone then
+      match own with
+      | some o => .ok o            -- possibly `None`: then no periodicity at all
+      | none => .error .valueError
+    else .ok explicit
+  | .ownFirst =>
+    match own with
+    | some o =>
+      if !o.isNone then .ok o
+      else if explicit.isNone then .error .valueError else .ok explicit
+    | none => if explicit.isNone then .error .valueError else .ok explicit
+
 /-- `index_displacement(atoms, indices, periodic, box)` as `_call_non_index_function` does it:
-gather column 0 and column 1, then call `displacement`.  `atoms` is an `ndarray` here, so
-`periodic=True` without a box is a `ValueError`; `periodic=False` ignores the box. -/
-def indexDisplacement (c : Consts) (a : Arr) (pairs : List (Int × Int)) (periodic : Bool) (box : BoxArg) : Res Arr :=
+gather column 0 and column 1 (an `IndexError` comes first), select the box, call `displacement`. -/
+def indexDisplacement (c : Consts) (a : Arr) (pairs : List (Int × Int)) (periodic : Bool) (box : BoxArg)
+    (own : Option BoxArg := none) : Res Arr :=
   match a with
   | .v _ => .unmodelled
   | _ =>
     match gather a (pairs.map Prod.fst), gather a (pairs.map Prod.snd) with
     | some a1, some a2 =>
-      if periodic then
-        match box with
-        | .none => .err .valueError
-        | b => displacement c a1 a2 b
-      else displacement c a1 a2 .none
+      match selectBox c.boxPrecedence periodic own box with
+      | .ok bx => displacement c a1 a2 bx
+      | .error e => .err e
     | _, _ => .err .indexError
 
 /-- The same quantity computed pair by pair for a single model and a single box — the
